@@ -84,6 +84,7 @@ func runC06(p *core.Prog, r *core.Result) {
 		"R6.6 the cyclic-dependency error of wait is produced only where the chain walk met the waiter",
 		"R6.9 no slot of a bounded resource (send into a channel) is held while a module's code executes, since execution re-enters the loader for nested loads",
 		"R6.8 the loading chain is walked (by wait or a helper) only after the waiter has published its own edge: of two loaders closing a cycle concurrently, the later one sees the whole cycle",
+		"R6.11 one registry key per module file: where the file a module executes is derived from its label with a default (an empty name means BUILD.dawn), every label that reaches the registry has had the same default applied - otherwise the label as written and the explicit one are two keys for one file, and the file executes twice",
 		"R6.10 done ends every wait: the field the wait loop tests is set by done to a constant that makes the loop exit (not to a result value that can be nil for a module that failed before running)",
 		"R6.7 the loader that registered a module publishes its result (done) on every exit, including failures before execution",
 	}
@@ -448,6 +449,8 @@ func runC06(p *core.Prog, r *core.Result) {
 		})
 	}
 	r.Floor("R6.10", nEnd, 1, "stores in done to the state the wait loop tests")
+	// R6.11 the registry key determines the file
+	checkRegistryKeyCanonical(p, r, loadModule)
 	// data/err are only written in done (and read in wait after the loop)
 	for _, fn := range p.ModuleFuncs() {
 		core.Instrs(fn, func(in ssa.Instruction) {
@@ -801,4 +804,123 @@ func checkChainWalk(p *core.Prog, r *core.Result, wait *ssa.Function, wp *ssa.Pa
 		}
 	}
 	r.Check(adv, "R6.6", construct, p.InstrPos(phi), "the chain walk advances from the current element (x = x.loading)", "the chain walk never advances beyond the first edge (the loop variable is refreshed from a loop-invariant module): cycles of length >= 3 are not detected and the walk spins or hangs")
+}
+
+// checkRegistryKeyCanonical implements R6.11.
+func checkRegistryKeyCanonical(p *core.Prog, r *core.Result, loadModule *ssa.Function) {
+	fetch := need(p, r, "R6.11", "", "Project", "fetchModule")
+	if fetch == nil {
+		return
+	}
+	isNameLoad := func(v ssa.Value) (ssa.Value, bool) {
+		u, ok := v.(*ssa.UnOp)
+		if !ok || u.Op != token.MUL {
+			return nil, false
+		}
+		fa, ok := u.X.(*ssa.FieldAddr)
+		if !ok || !core.IsField(fa, pkgLabel, "Label", "Name") {
+			return nil, false
+		}
+		return fa.X, true
+	}
+	emptyTest := func(f *ssa.Function) []*ssa.If {
+		var out []*ssa.If
+		for _, b := range f.Blocks {
+			iff, ok := b.Instrs[len(b.Instrs)-1].(*ssa.If)
+			if !ok {
+				continue
+			}
+			bo, ok := iff.Cond.(*ssa.BinOp)
+			if !ok || (bo.Op != token.EQL && bo.Op != token.NEQ) {
+				continue
+			}
+			for _, pr := range [][2]ssa.Value{{bo.X, bo.Y}, {bo.Y, bo.X}} {
+				if _, isName := isNameLoad(pr[0]); isName {
+					if s, ok := core.ConstString(pr[1]); ok && s == "" {
+						out = append(out, iff)
+					}
+				}
+			}
+		}
+		return out
+	}
+	defaults := emptyTest(fetch)
+	if len(defaults) == 0 {
+		r.OK("R6.11", "dawn.(*Project).fetchModule#no-default", p.Pos(fetch.Pos()), "the file of a module is named by the components of its label as they are: distinct keys name distinct files")
+		return
+	}
+	// which constant stands in for the empty name?
+	def := ""
+	core.Instrs(fetch, func(in ssa.Instruction) {
+		if ph, ok := in.(*ssa.Phi); ok {
+			for _, e := range ph.Edges {
+				if s, ok := core.ConstString(e); ok && s != "" {
+					def = s
+				}
+			}
+		}
+	})
+	n := 0
+	for _, c := range p.StaticCallers(loadModule) {
+		n++
+		ci := c.(ssa.Instruction)
+		f := ci.Parent()
+		arg := c.Common().Args[len(c.Common().Args)-1]
+		construct := "dawn.(*Project).loadModule#key-from:" + fname(f)
+		// (a) a literal with a non-empty constant name
+		if al, ok := core.Unwrap(arg).(*ssa.Alloc); ok {
+			okLit, nStores := false, 0
+			for _, g := range core.WithAnons(core.Outer(al.Parent())) {
+				core.Instrs(g, func(in ssa.Instruction) {
+					st, ok := in.(*ssa.Store)
+					if !ok {
+						return
+					}
+					fa, ok := st.Addr.(*ssa.FieldAddr)
+					if !ok || core.Unwrap(fa.X) != ssa.Value(al) || !core.IsField(fa, pkgLabel, "Label", "Name") {
+						return
+					}
+					nStores++
+					if s, ok := core.ConstString(st.Val); ok && s != "" {
+						okLit = true
+					}
+				})
+			}
+			r.Check(okLit && nStores == 1, "R6.11", construct, p.InstrPos(ci), "the key is a label literal with an explicit file name", "the key is a label literal without an explicit file name, while fetchModule reads an empty name as "+def)
+			continue
+		}
+		// (b) the empty-name case is replaced by the default before the registry is consulted
+		okNorm := false
+		for _, iff := range emptyTest(f) {
+			bo := iff.Cond.(*ssa.BinOp)
+			base, _ := isNameLoad(bo.X)
+			if base == nil {
+				base, _ = isNameLoad(bo.Y)
+			}
+			if base != arg || !iff.Block().Dominates(ci.Block()) {
+				continue
+			}
+			emptySucc := iff.Block().Succs[0]
+			if bo.Op == token.NEQ {
+				emptySucc = iff.Block().Succs[1]
+			}
+			isFix := func(in ssa.Instruction) bool {
+				st, ok := in.(*ssa.Store)
+				if !ok {
+					return false
+				}
+				fa, ok := st.Addr.(*ssa.FieldAddr)
+				if !ok || fa.X != arg || !core.IsField(fa, pkgLabel, "Label", "Name") {
+					return false
+				}
+				s, ok := core.ConstString(st.Val)
+				return ok && s != "" && (def == "" || s == def)
+			}
+			if !core.BlockReachesAvoiding(emptySucc, ci, isFix) {
+				okNorm = true
+			}
+		}
+		r.Check(okNorm, "R6.11", construct, p.InstrPos(ci), "an empty file name is replaced by "+def+" before the registry is consulted: the key names the file", "a label with an empty file name reaches the registry as it was written, while fetchModule reads an empty name as "+def+": load(\"//pkg\", …) and the package loader's //pkg:"+def+" are two registry keys for one file, which is executed twice (a package that declares targets then fails to load with 'duplicate target'; module-level code runs twice)")
+	}
+	r.Floor("R6.11", n, 2, "callers of (*Project).loadModule")
 }
